@@ -42,6 +42,26 @@ theorem responder_pinned_counterexample :
 example : runChunks (submit ("PASS".toList.map Cls.lit)) 0 [] ["PASS: PA".toList, "SS".toList] = 2 := by decide
 example : 0 < ("PASS".toList.map Cls.lit).length := by decide
 
+/-! ### when each response is issued -/
+
+/-- the per-read trace (what the correspondence check compares with the real `Responder`, read by
+    read): for every pattern and every chunking, the number of responses issued at a read is exactly
+    the number of occurrences that this read adds to the text seen so far - a response is issued at
+    the read that completes its occurrence, never earlier, never later, never twice. -/
+theorem responses_issued_at_completing_read (p : Pat) (hp : 0 < p.length) (chunks : List (List Char)) :
+    runChunksTrace (submit p) 0 [] chunks = newPerRead p [] chunks := by
+  have := runTrace_eq p hp [] chunks
+  simpa [lastEnd, findall, starts] using this
+
+/-- the per-read counts add up to the chunk-independent total of the headline -/
+theorem per_read_responses_sum_to_total (p : Pat) (hp : 0 < p.length) (chunks : List (List Char)) :
+    (runChunksTrace (submit p) 0 [] chunks).sum = (findall p chunks.flatten).length := by
+  rw [runTrace_sum, responder_chunk_invariant p hp]
+
+/-- non-vacuity: "PASS: PA" | "SS" | "!" answers at the first and the second read, not at the third -/
+example : runChunksTrace (submit ("PASS".toList.map Cls.lit)) 0 []
+    ["PASS: PA".toList, "SS".toList, "!".toList] = [1, 1, 0] := by decide
+
 /-! ### one occurrence spanning many reads -/
 
 /-- the headline instantiated where it is least obvious: EVERY read is shorter than a single
